@@ -190,6 +190,17 @@ theorem Reachable.inv {s : DState} (h : Reachable s) : DealerInv s := by
   | init => exact DealerInv.init _ _
   | step _ st ih => exact st.inv ih
 
+/-- A run of the dealer: consecutive steps, each recorded with the state it starts in. -/
+inductive Run : DState → List (DState × DOut) → DState → Prop
+  | nil (s : DState) : Run s [] s
+  | cons {s : DState} {o : DOut} {tr : List (DState × DOut)} {s' : DState} :
+      DStep s o → Run o.st tr s' → Run s ((s, o) :: tr) s'
+
+theorem Run.inv {s s' : DState} {tr : List (DState × DOut)} (run : Run s tr s') (h : DealerInv s) : DealerInv s' := by
+  induction run with
+  | nil => exact h
+  | cons st _ ih => exact ih (st.inv h)
+
 /-! ### no panics -/
 
 theorem syncError_panic (s : DState) (callee : SessKey) (req : Nat) (details : Dict) (err : String)
